@@ -7,8 +7,8 @@ import json, os, subprocess, sys, glob, shutil
 PC = sys.argv[1]
 AREAS = sys.argv[2:]
 ROUND = os.environ.get('ROUND', '1')          # 1: /tmp/wtr_<area>, names <area>-rN;  2 (held-out): /tmp/wtq_<area>, names <area>-qN
-SRCPFX = {'1': '/tmp/wtr_', '2': '/tmp/wtq_', '3': '/tmp/wts_', '4': '/tmp/wtu_', '5': '/tmp/wtv_', '6': '/tmp/wtw_'}[ROUND]
-TAG = {'1': 'r', '2': 'q', '3': 's', '4': 'u', '5': 'v', '6': 'w'}[ROUND]
+SRCPFX = {'1': '/tmp/wtr_', '2': '/tmp/wtq_', '3': '/tmp/wts_', '4': '/tmp/wtu_', '5': '/tmp/wtv_', '6': '/tmp/wtw_', '7': '/tmp/wtx7_'}[ROUND]
+TAG = {'1': 'r', '2': 'q', '3': 's', '4': 'u', '5': 'v', '6': 'w', '7': 'x'}[ROUND]
 PROPS = {
  'csslex': ['C01','C02','C07','C08','C20'], 'cssparse': ['C01','C08','C15','C20'], 'htmllex': ['C01','C02','C09','C17','C20'],
  'xmllex': ['C01','C02','C11','C17','C20'], 'jsonparse': ['C01','C10','C15','C20'], 'jslex': ['C01','C02','C06','C20'],
@@ -16,7 +16,7 @@ PROPS = {
  'stream': ['C13','C20'], 'binary': ['C19','C20'], 'common': ['C16','C17','C14','C15','C09','C08','C20'],
 }
 def sh(cmd, **kw): return subprocess.run(cmd, shell=True, capture_output=True, text=True, **kw)
-resf={'1':'/verif/seeded/REFACTOR_RESULTS.json','2':'/verif/seeded/REFACTOR2_RESULTS.json','3':'/verif/seeded/REFACTOR3_RESULTS.json','4':'/verif/seeded/REFACTOR4_RESULTS.json','5':'/verif/seeded/REFACTOR5_RESULTS.json','6':'/verif/seeded/REFACTOR6_RESULTS.json'}[ROUND]
+resf={'1':'/verif/seeded/REFACTOR_RESULTS.json','2':'/verif/seeded/REFACTOR2_RESULTS.json','3':'/verif/seeded/REFACTOR3_RESULTS.json','4':'/verif/seeded/REFACTOR4_RESULTS.json','5':'/verif/seeded/REFACTOR5_RESULTS.json','6':'/verif/seeded/REFACTOR6_RESULTS.json','7':'/verif/seeded/REFACTOR7_RESULTS.json'}[ROUND]
 resf=os.environ.get('OUT',resf)   # OUT: partial results of a parallel run, merged afterwards
 res=json.load(open(resf)) if os.path.exists(resf) else {}
 # suite outcome per refactoring from an earlier evaluation of the same patch (SKIP_SUITE=1 reuses it)
